@@ -75,10 +75,15 @@ public:
     }
 
     static void invoke_epoch_thread() {
+        // the flag raised by the previous fin() must not stop this cycle's thread
+        kEpochThreadEnd.store(false, std::memory_order_release);
         kEpochThread = std::thread(epoch_thread);
     }
 
-    static void invoke_gc_thread() { kGCThread = std::thread(gc_thread); }
+    static void invoke_gc_thread() {
+        kGCThreadEnd.store(false, std::memory_order_release);
+        kGCThread = std::thread(gc_thread);
+    }
 
     static void join_epoch_thread() { kEpochThread.join(); }
 
